@@ -573,6 +573,14 @@ def run_fortran_engine(ctx, prop):
             if where and where.group(1) == "m":
                 site = stmt_for_line(text, int(where.group(2)))
             elif where:
+                m_ = re.search(r"Type mismatch in argument .(state_\w+|p_\w+). at \(1\); passed REAL\(8\) to (\w+)",
+                               errs[0] if errs else "")
+                if m_:
+                    # the driver hands every real state scalar / user-type component over as real*8, which is
+                    # what the written program makes of it; the module declares something else
+                    raise Violation("interface-kind", "the generated module declares %s as %s, the program "
+                                    "computes real values for it (gfortran: %s)" % (m_.group(1), m_.group(2), errs[0]),
+                                    site=m_.group(2))
                 raise RuntimeError("driver does not compile: %s\n%s" % (errs[:1], driver))
             ctx.decoded["fortran_excerpt"] = _excerpt(text, int(where.group(2)) if where else 1)
             raise Violation("compile-error", "gfortran rejects the generated module: %s (in [%s])"
